@@ -12,6 +12,8 @@ import SigModel.Lemmas.C08
 import SigModel.Lemmas.C08e
 import SigModel.Lemmas.C08p
 import SigModel.Spec.Metrics
+import SigModel.Model.TagsTree
+import SigModel.Lemmas.C08t
 
 namespace SigModel.Props.C08
 open SigModel SigModel.Gorilla
@@ -139,6 +141,55 @@ open SigModel.Spec.Metrics in
 /-- … and the repaired input keeps exactly this pair apart. -/
 example : tsidPreimage { name := "m", labels := [("z", "x"), ("ab", "1")], points := [] } ≠
           tsidPreimage { name := "m", labels := [("z", "xa"), ("b", "1")], points := [] } := by
+  decide +kernel
+
+/-! ## tags tree file, block level (Model/TagsTree.lean; code with the repair c09-10)
+
+"series with different names or tag sets are never merged … before and after block and segment rotation": a series is
+found through the TSID lists of its tag values in the tags tree file.  The file stores the number of TSIDs of a block in
+16 bits; the repaired encoder writes a value with more than 65535 TSIDs as several consecutive blocks, and the readers
+collect the blocks of a value.  The byte framing of a block is abstracted (`wellFramed` = the count fits its field); the
+real encoder and readers are tied to this model by the correspondence suite `tagstree`. -/
+open SigModel.TagsTree in
+/-- C08.T1 every block the encoder writes — for ANY number of TSIDs per value — carries a count that fits the 16-bit
+field (it is read back as written), and the blocks of an entry concatenate to the entry's TSIDs -/
+theorem tagstree_blocks_well_framed (es : List Entry) :
+    (∀ b ∈ encodeBlocks es, wellFramed b) ∧ ∀ e : Entry, (blocksOf e).flatMap (·.tsids) = e.tsids :=
+  ⟨SigModel.Lemmas.C08t.encodeBlocks_wellFramed es, SigModel.Lemmas.C08t.blocksOf_tsids⟩
+
+open SigModel.TagsTree in
+/-- C08.T2 `tagstree_exact_complete`: the rotated exact-match reader (`k="v"`) returns, for every value of the metric,
+exactly the TSIDs of that value, however many there are (distinct values have distinct hashes: xxhash is outside the
+statement) -/
+theorem tagstree_exact_complete (es : List Entry) (hnd : (es.map (·.hash)).Nodup) (e : Entry) (he : e ∈ es) :
+    readEqual e.hash false (encodeBlocks es) = e.tsids :=
+  SigModel.Lemmas.C08t.readEqual_complete es hnd e he
+
+open SigModel.TagsTree in
+/-- C08.T3 the `!=` reader and the value iterator (regex matchers, `k=*`) return the TSIDs of exactly the entries with
+another / with that hash -/
+theorem tagstree_scan_complete (h : Nat) (es : List Entry) :
+    readNotEqual h (encodeBlocks es) = (es.filter (fun e => e.hash != h)).flatMap (·.tsids) ∧
+    iterFor h (encodeBlocks es) = (es.filter (fun e => e.hash == h)).flatMap (·.tsids) :=
+  ⟨SigModel.Lemmas.C08t.readNotEqual_complete h es, SigModel.Lemmas.C08t.iterFor_complete h es⟩
+
+open SigModel.TagsTree in
+/-- the statement T1 for the encoder BEFORE the repair c09-10 (one block per value) -/
+def TagsTreeWellFramedOld : Prop := ∀ es : List Entry, ∀ b ∈ encodeBlocksOld es, wellFramed b
+
+open SigModel.TagsTree in
+/-- C08.T1-old FALSE before the repair: a value shared by 65536 series was written with the count 0 in front of its
+65536 TSIDs — the rest of the metric's chunk was mis-framed after rotation (detectors: suite tagstree
+sig=tagstree/rotated-differs/tsids-over-64k, e2e_metrics sig=e2em/in-class/tsids-per-value-over-64k) -/
+theorem tagstree_well_framed_old_counterexample : ¬ TagsTreeWellFramedOld := by
+  intro hall
+  exact SigModel.Lemmas.C08t.old_not_wellFramed
+    (hall [{ hash := 0, tsids := List.replicate 65536 0 }] _ (List.mem_singleton.mpr rfl))
+
+open SigModel.TagsTree in
+/-- non-vacuity: 65536 TSIDs of one value → two blocks (65535 + 1), found again by the exact reader behind another value -/
+example : (encodeBlocks [⟨1, [7]⟩, ⟨2, List.range 65536⟩]).map (fun b => (b.hash, b.tsids.length)) = [(1, 1), (2, 65535), (2, 1)]
+    ∧ (readEqual 2 false (encodeBlocks [⟨1, [7]⟩, ⟨2, List.range 65536⟩])).length = 65536 := by
   decide +kernel
 
 end SigModel.Props.C08
